@@ -122,7 +122,10 @@ inductive Op
   | launch (p : Pid) (cls : Nat)
   | execute (p : Pid) (cls : Nat)
   | inline (p : Pid) (cls : Nat)   -- construct the child, enter the `try`, start awaiting its `step_until_terminated()`
-  | handler (p : Pid)              -- end of that `try` block (reached normally: nothing; by `unwind`: the `absorbed` sample)
+  | handler (p : Pid) (atTry : List Pid) (absorbing : Bool)
+      -- end of that `try` block; `absorbing` = reached by `unwind` (the `except` clause runs: the `absorbed` sample), else
+      -- reached because the awaited coroutine returned (nothing to do).  `atTry` = the task's stack when the `try` was
+      -- entered: a history variable, only copied into the `Join` record
   | throw                          -- `raise BaseBoom()`
 deriving DecidableEq, Repr, Inhabited
 
@@ -152,7 +155,7 @@ def unwind (how : Exit) : Nat → List Op → List Op
   | d, .push _ :: c => unwind how (d + 1) c
   | 0, .pop p _ :: c => .pop p how :: unwind how 0 c
   | d + 1, .pop _ _ :: c => unwind how d c
-  | 0, .handler p :: c => .obs p .absorbed :: c
+  | 0, .handler p s0 _ :: c => .handler p s0 true :: c
   | d, _ :: c => unwind how d c
 
 /-- what remains of a coroutine once the process whose stepping coroutine is at its head has terminated (`d` = number of
@@ -163,7 +166,7 @@ def toHandler : Nat → List Op → List Op
   | d, .push _ :: c => toHandler (d + 1) c
   | 0, .pop p how :: c => .pop p how :: c
   | d + 1, .pop _ _ :: c => toHandler d c
-  | 0, .handler p :: c => .handler p :: c
+  | 0, .handler p s0 a :: c => .handler p s0 a :: c
   | d, _ :: c => toHandler d c
 
 /-- `Process.on_exiting` -/
@@ -257,6 +260,16 @@ structure ScopeExit where
   how : Exit := .returned
 deriving Repr, Inhabited, DecidableEq
 
+/-- record of a completed inline await (`try: await child.step_until_terminated()` / `except BaseException`): the
+awaiting task's stack when the `try` was entered and when the awaiting code carries on -/
+structure Join where
+  tid : Tid
+  pid : Pid              -- the awaiting process
+  before : List Pid
+  after : List Pid
+  absorbed : Bool        -- a BaseException / cancellation came out of the child and was absorbed
+deriving Repr, Inhabited, DecidableEq
+
 inductive Err
   | scopeAssertion   -- the `assert Process.current() is self` of `_process_scope` failed
   | badRef           -- a class / callback index outside the scenario (input rejected)
@@ -271,6 +284,7 @@ structure State where
   callStack : List Tid := []     -- tasks inside a nested `run_until_complete`, innermost first
   log : List Obs := []           -- newest first
   scopes : List ScopeExit := []  -- newest first
+  joins : List Join := []        -- newest first
   err : Option Err := none
 deriving Repr, Inhabited
 
@@ -348,8 +362,11 @@ def exec1 (σ : State) (t : Tid) : State × Ctl :=
           ({ σ with
               nextPid := q + 1,
               log := logHooks t q T.stack constructorHooks σ.log,
-              tasks := σ.tasks.set t { T with code := stepperOps q steps ++ .handler p :: rest } }, .cont)
-      | .handler _ => ({ σ with tasks := σ.tasks.set t { T with code := rest } }, .cont)
+              tasks := σ.tasks.set t { T with code := stepperOps q steps ++ .handler p T.stack false :: rest } }, .cont)
+      | .handler p s0 absorbing =>
+        ({ σ with tasks := σ.tasks.set t { T with code := rest },
+                  joins := ⟨t, p, s0, T.stack, absorbing⟩ :: σ.joins,
+                  log := if absorbing then ⟨p, .absorbed, current T.stack, T.stack, t⟩ :: σ.log else σ.log }, .cont)
       | .throw => ({ σ with tasks := σ.tasks.set t { T with code := unwind .baseException 0 rest } }, .cont)
 
 /-- the test `while not f.done()` of the innermost nested `run_until_complete`: if its future is done the call returns
